@@ -48,6 +48,7 @@ def _v(rec, clause, sig, *a, **k):
 
 def units(tier, seed):
     out = []
+    plain = {}
     if tier == "quick":
         gen = AL.systems(AL.QUICK_SHAPES, seed=seed, order=2, zeros=True)
     else:
@@ -56,6 +57,14 @@ def units(tier, seed):
         if names["shape"].startswith("1x"):
             continue  # C03 quantifies over 2-5 receptors
         out.append(dict(kind="system", names=names, spec=B.spec_of(A, lb, ub, K, bl), tier=tier))
+        if names["K"] == "default" and names["baseline"] == "default" and names["bounds"] in ("ub-finite", "lb-mixed", "default") and names["A"] in ("asc", "perm"):
+            plain.setdefault((names["shape"], names["bounds"]), (names, A, lb, ub))
+    # the same plain systems in other units of capture (membership does not depend on the unit)
+    for key, (names, A, lb, ub) in sorted(plain.items()):
+        for label, sc in (("x1e-4", 1e-4), ("x1e4", 1e4)):
+            if tier == "quick" and (key[1] == "default") != (label == "x1e4") and A.shape[1] > 3:
+                continue
+            out.append(dict(kind="system", names=dict(names, capture_unit=label), spec=B.spec_of(A * sc, lb, ub, None, None), tier=tier))
     # explicit clouds for the module-level dreye.in_hull
     out.append(dict(kind="clouds", dim=2, tier=tier))
     out.append(dict(kind="clouds", dim=3, tier=tier))
